@@ -13,9 +13,11 @@ def main():
     # generated module is current
     with tempfile.TemporaryDirectory(dir=os.path.join(vlib.VERIF, ".work") if os.path.isdir(os.path.join(vlib.VERIF, ".work")) else None) as td:
         gen = os.path.join(td, "Universe.tla")
-        subprocess.run([sys.executable, os.path.join(vlib.VERIF, "tools", "genuniverse.py"), gen], check=True)
-        if open(gen).read() != open(os.path.join(vlib.SPEC, "Universe.tla")).read():
-            print("spec/Universe.tla is stale: run tools/genuniverse.py", file=sys.stderr)
+        gen2 = os.path.join(td, "JsonKeys.tla")
+        subprocess.run([sys.executable, os.path.join(vlib.VERIF, "tools", "genuniverse.py"), gen, gen2], check=True)
+        if open(gen).read() != open(os.path.join(vlib.SPEC, "Universe.tla")).read() or \
+                open(gen2).read() != open(os.path.join(vlib.SPEC, "JsonKeys.tla")).read():
+            print("spec/Universe.tla or spec/JsonKeys.tla is stale: run tools/genuniverse.py", file=sys.stderr)
             return 2
         # SANY over every module (all modules in one directory so EXTENDS resolves)
         for f in glob.glob(os.path.join(vlib.SPEC, "*.tla")) + glob.glob(os.path.join(vlib.SPEC, "mc", "*.tla")) + \
